@@ -9,7 +9,10 @@ package main
 // c01_r4.go: unsigned numbers and multi-byte strings (random and the exhaustive
 // cross phase), storms of script goroutines in fresh child processes;
 // c01_r5.go: equality of values with uncomparable interface content, type paths
-// through nil modules, one expression node applied to operands of different types.
+// through nil modules, one expression node applied to operands of different types;
+// c01_r6.go: go statements nested in functions / goroutines / deferred functions /
+// callbacks, container storms over nested struct types, import storms over a
+// package of the host.
 
 import (
 	"context"
@@ -298,17 +301,17 @@ func init() {
 			return fw.Plan{
 				Level:            "exploration",
 				CrashIsViolation: true,
-				Rule:             "each case runs 70 scripts through vm.ExecuteContext (debug=false) in an environment holding one value of every constructible kind, types defined with make(type ...) (of numbers, strings, lists, maps, functions, structs, channels, pointers, durations, error), plus Go functions over such values (identity, typed scalars/slices/maps/pointers/channels/functions, variadic, multi-result, error-returning incl. a nil error or nil non-empty interface as the single result, nil map/slice/pointer/function/channel results, panicking with error/string/arbitrary value, callbacks): 15% token soup from the lexer's alphabet, 45% grammar-wild templates (every production with operands chosen ignoring types, degenerate forms; 14% of the operands are generated: function literals of every parameter-list shape incl. variadic without a named parameter and duplicate names, numerals as source literals and as strings with fractions, exponents of every magnitude up to beyond the int32/int64 range and digit strings of up to 400 digits, typed literals/make/new over random type expressions nested three deep - slice/map/chan/pointer/struct/defined/dotted/undefined names, including map keys reflect cannot hash and struct fields that are lower-case or duplicated; dedicated templates put function literals, numerals and types in every position they can be written, compare/convert/index with numerals, use the zero value of the type of any value, and call Go methods through member syntax), 30% mutations of the repository's own scripts, 10% mutated generated programs; case 0 replays every input that crashed the pinned tree plus one representative of each generated class. The environment also holds unsigned numbers of every width (elements of []uint64/[]uint32/[]uint/[]byte built by the script, bytes of toByteSlice, make(uint..); host-bound uint/uint8/uint16/uint32/uint64/uintptr/int8/int16/float32 numbers, []byte, []uint16), strings with multi-byte characters and a host-bound string that is not valid UTF-8; templates put them under every operator, in every position a number / a string is used, with indices at and next to the byte-length and character-count boundaries; compound assignments to entries of nil typed maps reached through containers; function literals with up to hundreds of parameters. Phase goroutines: the in-process scripts, plus per case one storm in a FRESH child process (every construct shape is new to it): 4..16 goroutines started by go wait on one channel, are released together by close() and each evaluate 40..100 constructs of distinct shapes (function literals/declarations with 0..90 parameters, variadic or not, called or not, nested in modules and lists; struct/map/chan/slice/defined types), or - one storm in four - bind a module to names while the other half assign plain variables of the scopes above it; the workers share nothing but the two channels. Phase cross (exhaustive): every unsigned operand x every binary operator x every partner (all unsigned ones, every other number kind, one value of each other kind) in both orders; the ordering operators in every position an expression is evaluated from (top level, go/defer arguments, conditions, function bodies, literals); unary/increment/compound-assignment/conversion/index/size uses of every unsigned operand; and for each of 12 strings (9 with multi-byte characters, an ASCII one and the empty one for comparison, 1 host-bound that is not valid UTF-8) every index from -1 to len(s)+1 (as a literal and computed from the script's own len) in every read, slice (all neighbouring bounds), store, increment and loop form. Monitor: recover() around the call (a Go panic reaching the caller), the parent's classifier over a worker death (panic in a script goroutine, fatal error), and for every returned value a goroutine that keeps it - and up to 7 nil interface values reachable in it - in local variables while its stack is moved, so that a corrupted value ends the worker with the runtime's 'invalid pointer found on stack' while its input is in flight. Non-trivial = the script parsed; distinct = distinct source text." + c01RuleR5,
+				Rule:             "each case runs 70 scripts through vm.ExecuteContext (debug=false) in an environment holding one value of every constructible kind, types defined with make(type ...) (of numbers, strings, lists, maps, functions, structs, channels, pointers, durations, error), plus Go functions over such values (identity, typed scalars/slices/maps/pointers/channels/functions, variadic, multi-result, error-returning incl. a nil error or nil non-empty interface as the single result, nil map/slice/pointer/function/channel results, panicking with error/string/arbitrary value, callbacks): 15% token soup from the lexer's alphabet, 45% grammar-wild templates (every production with operands chosen ignoring types, degenerate forms; 14% of the operands are generated: function literals of every parameter-list shape incl. variadic without a named parameter and duplicate names, numerals as source literals and as strings with fractions, exponents of every magnitude up to beyond the int32/int64 range and digit strings of up to 400 digits, typed literals/make/new over random type expressions nested three deep - slice/map/chan/pointer/struct/defined/dotted/undefined names, including map keys reflect cannot hash and struct fields that are lower-case or duplicated; dedicated templates put function literals, numerals and types in every position they can be written, compare/convert/index with numerals, use the zero value of the type of any value, and call Go methods through member syntax), 30% mutations of the repository's own scripts, 10% mutated generated programs; case 0 replays every input that crashed the pinned tree plus one representative of each generated class. The environment also holds unsigned numbers of every width (elements of []uint64/[]uint32/[]uint/[]byte built by the script, bytes of toByteSlice, make(uint..); host-bound uint/uint8/uint16/uint32/uint64/uintptr/int8/int16/float32 numbers, []byte, []uint16), strings with multi-byte characters and a host-bound string that is not valid UTF-8; templates put them under every operator, in every position a number / a string is used, with indices at and next to the byte-length and character-count boundaries; compound assignments to entries of nil typed maps reached through containers; function literals with up to hundreds of parameters. Phase goroutines: the in-process scripts, plus per case one storm in a FRESH child process (every construct shape is new to it): 4..16 goroutines started by go wait on one channel, are released together by close() and each evaluate 40..100 constructs of distinct shapes (function literals/declarations with 0..90 parameters, variadic or not, called or not, nested in modules and lists; struct/map/chan/slice/defined types), or - one storm in four - bind a module to names while the other half assign plain variables of the scopes above it; the workers share nothing but the two channels. Phase cross (exhaustive): every unsigned operand x every binary operator x every partner (all unsigned ones, every other number kind, one value of each other kind) in both orders; the ordering operators in every position an expression is evaluated from (top level, go/defer arguments, conditions, function bodies, literals); unary/increment/compound-assignment/conversion/index/size uses of every unsigned operand; and for each of 12 strings (9 with multi-byte characters, an ASCII one and the empty one for comparison, 1 host-bound that is not valid UTF-8) every index from -1 to len(s)+1 (as a literal and computed from the script's own len) in every read, slice (all neighbouring bounds), store, increment and loop form. Monitor: recover() around the call (a Go panic reaching the caller), the parent's classifier over a worker death (panic in a script goroutine, fatal error), and for every returned value a goroutine that keeps it - and up to 7 nil interface values reachable in it - in local variables while its stack is moved, so that a corrupted value ends the worker with the runtime's 'invalid pointer found on stack' while its input is in flight. Non-trivial = the script parsed; distinct = distinct source text." + c01RuleR5 + c01RuleR6,
 				Assumptions: append([]string{"stack/memory exhaustion and concurrent map access between script goroutines are classified from the runtime's fatal-error text and excluded, as the statement says",
 					"allocation sizes between 10^4 and 2^48 and range() over huge spans are never generated (they would exhaust memory, which is outside the guarantee)",
-					"the packages tables are not linked into this worker: import() cannot reach os.Exit/exec/sockets",
+					"the packages tables the repository bundles are emptied in this worker: import() cannot reach os.Exit/exec/sockets; the one package it can reach is registered by the engine (c01_r6.go)",
 					"numerals that the VM would take as a size or repeat count (integer numerals also inside strings, float literals) are generated below 10^4 or beyond the int64 range only; in scripts that mention range() exponents and long digit runs are stripped",
 					"environment class: Go arrays, Go functions with array parameters and Go structs with embedded pointers are not bound - a script cannot construct such values (no array type or embedded field can be written), so they are outside the stated class of environments",
 					"pending repairs of the pinned tree (c01PendingFix_* constants, /tmp/strengthen/C01-genuine.md): nil module pointers (zero value of a type defined from a module), and nil values of a non-empty interface type sent into channels / stored into maps (such values are confined to templates that do neither) are kept out of the generated domain until /repo is repaired",
 					"storm children: a child that dies with 'fatal error: concurrent map ...' is a violation whatever frames it died in, because the storm's goroutines share no script container by construction (every name they assign is a parameter or a var of their own; the scope storm shares only plain variables and a module); stack/memory exhaustion of a child is excluded; a child that is killed by the 120 s watchdog or dies without a Go fault report is inconclusive. Whether two goroutines really overlap is up to the scheduler: a silent storm proves nothing about that schedule, a dead child is a counterexample",
 					"host-bound unsigned values that could become a size or a repeat count are below 10^4 or beyond the int64 range",
 					"pending repairs of the pinned tree (c01PendingFix_* constants in c01_r4.go, /tmp/strengthen/C01-r4-genuine.md): NaN keys in compound assignments to entries of nil typed maps, and function literals with more than 100 parameters (126 is where reflect.FuncOf panics; mutations may add a few) are kept out of the generated domain until /repo is repaired",
-					"the moved-stack observation needs the runtime to start the observing goroutine with a stack smaller than 192KB (the default); otherwise it learns nothing and stays silent"}, c01AssumptionsR5...),
+					"the moved-stack observation needs the runtime to start the observing goroutine with a stack smaller than 192KB (the default); otherwise it learns nothing and stays silent"}, append(c01AssumptionsR5, c01AssumptionsR6...)...),
 				Phases: []fw.Phase{{Name: "fuzz", Cases: n, Chunk: 25, TimeoutS: 600, MemMB: 6144},
 					{Name: "goroutines", Cases: n / 10, Chunk: 5, TimeoutS: 600, MemMB: 6144},
 					{Name: "cross", Cases: c01CrossSlices, Chunk: 2, TimeoutS: 600, MemMB: 6144, Exhaust: true}},
@@ -324,6 +327,7 @@ func init() {
 			for k := range env.PackageTypes {
 				delete(env.PackageTypes, k)
 			}
+			c01RegisterPkg() // the host's own package (c01_r6.go)
 		},
 		Run: func(c *wk.Case) {
 			if c.Phase == "cross" {
@@ -346,12 +350,16 @@ func init() {
 					c01RunOne(c, src, 3*time.Second)
 					runtime.GOMAXPROCS(old)
 				}
+				// round 6 (drawn last): a container or import storm in a fresh child, and
+				// the in-process import scripts
+				c01RunStormR6(c)
+				c01RunGoroutinesR6(c)
 				return
 			}
 			cor := corpus.Scripts()
 			var scripts []string
 			if c.Index == 0 {
-				scripts = c01Fixed
+				scripts = append(append([]string{}, c01Fixed...), c01FixedNested()...)
 			} else {
 				for i := 0; i < 70; i++ {
 					switch r := c.Rng.Intn(100); {
@@ -385,6 +393,11 @@ func init() {
 				// earlier versions generated)
 				for i := 0; i < 6; i++ {
 					scripts = append(scripts, c01PolyScript(c.Rng))
+				}
+				// go statements executed inside function bodies, goroutines, deferred
+				// functions, callbacks (c01_r6.go; drawn after everything else)
+				for i := 0; i < 6; i++ {
+					scripts = append(scripts, c01NestedScript(c.Rng))
 				}
 			}
 			for _, src := range scripts {
